@@ -39,7 +39,7 @@ def gen(tier, rng):
         if timed:
             # a probe answered late takes real time (the client's 300 ms read timeout) during which other parked connections
             # reach the 300 ms idle timeout: the model has no clock for that, so the two are not combined
-            faults = [f for f in faults if ":s" not in f]
+            faults = [f for f in faults if ":s" not in f and ":w" not in f]
         extra = ["m"] * rng.choice([0, 1, 2, 4])
         if timed:
             extra += ["W", "m"] + ["m"] * mn
